@@ -230,6 +230,30 @@ def rule_d(ctx, idx, A):
     ctx.count("computed_validation_attributes", n)
 
 
+def rule_f(ctx, idx, A):
+    ctx.rule(
+        "C14.f",
+        "A rejected cycle stays rejected: Command.run marks a command finished only on the path where execute returned and its "
+        "value was stored - never in a finally / except block or before the call - so the commands an aborted evaluation passed "
+        "through are still unfinished when the program is run again and the cycle is found again.",
+    )
+    from .C01 import value_of_call_stores
+    from engine.cfg import self_attr as _sa
+
+    fi = A.run
+    sn = K.self_name(fi)
+    cfg = K.cfg_of(idx, fi)
+    execs = cfg.find("call", lambda n: K.is_self_call(n.ast, "execute", sn))
+    good, _all = value_of_call_stores(cfg, execs, A.memo, sn)
+    flag_true = cfg.find("store", lambda n: n.meta.get("attr") == A.flag and _sa(n.ast, sn) and isinstance(n.meta.get("value"), ast.Constant) and n.meta["value"].value is True)
+    con = "%s::finished-only-after-execute" % fi.key
+    if not flag_true:
+        raise AnalysisError("C14.f: Command.run never sets the finished flag")
+    early = [f for f in flag_true if not cfg.must_pass_through(cfg.entry, f, set(good))]
+    ctx.ob("C14.f", con, K.rel(fi), (early or flag_true)[0].line, not early, "the finished flag is set only after execute's value was stored" if not early else
+           "`%s = True` at line %s is reached on paths where execute did not return (an exception unwinding through run): after a rejected cycle every command on the stack is left finished with no result, so a second run() of the same program returns normally or fails with an unrelated error instead of %s" % (A.flag, early[0].line, ERR))
+
+
 def run(ctx, idx):
     A = K.anchors(idx)
     exc_mod = idx.module_of("mpilot.exceptions")
@@ -242,6 +266,7 @@ def run(ctx, idx):
     rule_b(ctx, idx, A, errcls)
     rule_c(ctx, idx, A, errcls)
     rule_d(ctx, idx, A)
+    rule_f(ctx, idx, A)
     from .C01 import rule_e
 
     rule_e(ctx, idx, A, rule="C14.e", text="Restated here because the re-entry guard can only fire on a reference that is actually read: a cycle closed through an input the consumer skips (a zero weight, a short-circuit over the list) is never entered and the cyclic model runs to completion.")
